@@ -18,10 +18,12 @@ import (
 
 	coraza "github.com/corazawaf/coraza/v3"
 	"github.com/corazawaf/coraza/v3/experimental/plugins/plugintypes"
+	"github.com/corazawaf/coraza/v3/internal/collections"
 	"github.com/corazawaf/coraza/v3/internal/corazawaf"
 	"github.com/corazawaf/coraza/v3/internal/operators"
 	"github.com/corazawaf/coraza/v3/internal/transformations"
 	"github.com/corazawaf/coraza/v3/types"
+	"github.com/corazawaf/coraza/v3/types/variables"
 	"github.com/corazawaf/coraza/v3/verifharness/vh"
 )
 
@@ -1510,6 +1512,36 @@ func (rn *runner) addOp(name, arg, val string) {
 	rn.res.InputDistribution["op_validation"]++
 }
 
+// addFold: a real case-insensitive NamedCollection filled with pairs of arbitrary bytes, then
+// FindString(k) on it (or on its Names view), against MatchFold's model with strings.ToLower
+func (rn *runner) addFold(pairs [][2]string, names bool, k string) {
+	col := collections.NewNamedCollection(variables.ArgsGet)
+	for _, p := range pairs {
+		col.Add(p[0], p[1])
+	}
+	var mds []types.MatchData
+	if names {
+		mds = col.Names(variables.ArgsGetNames).FindString(k)
+	} else {
+		mds = col.FindString(k)
+	}
+	var obs, in [][2]string
+	for _, m := range mds {
+		obs = append(obs, [2]string{hx(m.Key()), hx(m.Value())})
+	}
+	sortPairs(obs)
+	for _, p := range pairs {
+		in = append(in, [2]string{hx(p[0]), hx(p[1])})
+	}
+	rn.res.Evaluations++
+	if len(obs) > 0 {
+		rn.nontriv++
+	}
+	rn.res.InputDistribution["fold_collection"]++
+	rn.push(fmt.Sprintf("CFold %s %s %s %s", pairsCoq(in), vh.Bool(names), vh.HxS(k), pairsCoq(obs)),
+		map[string]any{"kind": "fold", "pairs": in, "names": names, "key_hex": hx(k), "observed": obs}, nil)
+}
+
 func (rn *runner) runDoc(doc json.RawMessage) {
 	var c Case
 	if err := json.Unmarshal(doc, &c); err != nil {
@@ -1626,6 +1658,27 @@ func Run(cfg vh.Config) (*vh.Result, error) {
 			rules, q := genSizeCase(rng)
 			rn.addTx(rules, q, "")
 			res.InputDistribution["size_count_focused"]++
+		}
+		// growth 2: keyed lookup with non-ASCII / invalid-UTF-8 names; own PRNG stream, appended after
+		// every existing family (the existing stream is not touched)
+		{
+			g2 := vh.Rng(cfg.Seed, "C01-growth2")
+			foldNames := []string{"\xe2\x84\xaa", "K", "k", "\xc4\xb0", "I", "i", "\xff", "\xfe", "\xef\xbf\xbd", "a\xff", "A\xfe", "\xe1\xba\x9e", "\xc3\x9f", "\xc8\xba", "\xc3\x89", "\xc3\xa9", "\xc3", "a", "A", "", "\xe2\x84\xab", "\xc3\xa5"}
+			for _, k := range foldNames { // deterministic grid: every name looked up in the collection of all names
+				var all [][2]string
+				for i, n := range foldNames {
+					all = append(all, [2]string{n, fmt.Sprint(i)})
+				}
+				rn.addFold(all, false, k)
+				rn.addFold(all, true, k)
+			}
+			for i := 0; i < cfg.Pick(150, 3000); i++ {
+				var ps [][2]string
+				for j := g2.Intn(6); j >= 0; j-- {
+					ps = append(ps, [2]string{pick(g2, foldNames), pick(g2, []string{"x", "", "\xff", "v"})})
+				}
+				rn.addFold(ps, g2.Intn(3) == 0, pick(g2, foldNames))
+			}
 		}
 		if cfg.Thorough() {
 			rn.exhaustive()
